@@ -36,19 +36,29 @@ def simulated(rnd, i):
         b['objs'][-1].angular_position = b['q']('AngularPosition', 0)
         b['objs'][-1].angular_speed = b['q']('AngularSpeed', 0)
         op = inst['ops'][2]
-        _, err = outcome(lambda: Solver(b['pt']).run(b['q']('TimeInterval', op['dt'], op['dt_unit']), b['q']('TimeInterval', op['T'], op['T_unit'])))
+        # in every other powertrain the duty cycle VARIES along the history (a control with one or two rules, re-used by every run)
+        ctl = None
+        if i % 2 == 1:
+            rules = [r for r in solver_gen.random_rules(rnd, elems, dt, n + 1, kind=rnd.choice([1, 2])) if r['type'] != 'custom']
+            if rules:
+                ctl = solver_rec.make_control(b, rules, {'events': {'rule': [], 'control': [], 'sensor': []}})
+        _run = Solver.run
+
+        def run_with(solver, *a):
+            return _run(solver, *a, motor_control=ctl)
+        _, err = outcome(lambda: run_with(Solver(b['pt']), b['q']('TimeInterval', op['dt'], op['dt_unit']), b['q']('TimeInterval', op['T'], op['T_unit'])))
         if err is None and i % 2 == 0:
             # continue in OTHER time units (and another step): the recorded axis then holds instants of mixed units
             u1, u2 = rnd.choice(solver_gen.TIME_UNITS), rnd.choice(solver_gen.TIME_UNITS)
             d2 = op['dt'] * rnd.choice([Fraction(1), Fraction(1, 2), Fraction(2)])
-            _, err = outcome(lambda: Solver(b['pt']).run(b['q']('TimeInterval', d2, u1), b['q']('TimeInterval', d2 * rnd.randint(2, 5), u2)))
+            _, err = outcome(lambda: run_with(Solver(b['pt']), b['q']('TimeInterval', d2, u1), b['q']('TimeInterval', d2 * rnd.randint(2, 5), u2)))
         if err is None and i % 3 == 1:
             # a history that REPLACED an earlier, longer one: reset, re-apply the initial conditions, simulate fewer instants
             _, err = outcome(b['pt'].reset)
             b['objs'][-1].angular_position = b['q']('AngularPosition', 0)
             b['objs'][-1].angular_speed = b['q']('AngularSpeed', 0)
             if err is None:
-                _, err = outcome(lambda: Solver(b['pt']).run(b['q']('TimeInterval', op['dt'], op['dt_unit']), b['q']('TimeInterval', op['dt'] * 2, op['dt_unit'])))
+                _, err = outcome(lambda: run_with(Solver(b['pt']), b['q']('TimeInterval', op['dt'], op['dt_unit']), b['q']('TimeInterval', op['dt'] * 2, op['dt_unit'])))
         if err is None and i % 3 == 2:
             # a history that REPLACED an earlier one of the SAME length on another grid, with the tables already queried
             # once on the earlier history (whatever the calls keep between queries must not outlive reset())
@@ -62,7 +72,7 @@ def simulated(rnd, i):
             if err is None:
                 d3 = op['dt'] * rnd.choice([Fraction(1, 2), Fraction(3, 4), Fraction(3, 2)])
                 u3 = rnd.choice(solver_gen.TIME_UNITS)
-                _, err = outcome(lambda: Solver(b['pt']).run(b['q']('TimeInterval', d3, u3), b['q']('TimeInterval', d3 * (n_inst - 1), u3)))
+                _, err = outcome(lambda: run_with(Solver(b['pt']), b['q']('TimeInterval', d3, u3), b['q']('TimeInterval', d3 * (n_inst - 1), u3)))
                 if err is None and len(b['pt'].time) != n_inst:
                     err = 'length'
         if err is None:
